@@ -471,6 +471,8 @@ std::function<void()> make_setter(dj::track& t, const std::string& f, const json
 
 void do_reopen(world& w, json& rec)
 {
+    // (C16: releasing the last handle and loading again must leave every table of every attached database as it was)
+    std::string d0 = vh::raw_reader{w.conn}.digest();
     std::vector<int64_t> ids(w.th.size(), 0);
     for (size_t i = 1; i < w.th.size(); ++i)
         if (w.th[i])
@@ -491,6 +493,7 @@ void do_reopen(world& w, json& rec)
     rec["loaded"] = vh::name_of(loaded);
     rec["want"] = w.schema_name;
     w.conn = shim::last_db();
+    rec["csame"] = vh::raw_reader{w.conn}.digest() == d0;
     for (size_t i = 1; i < ids.size(); ++i)
         if (ids[i])
         {
